@@ -1,8 +1,8 @@
 """C16 - ParameterCollection back-up / restore and the composite-level retainState scope, on the REAL code.
 
 Executed symbolically: ParameterCollection.backUp / restoreBackup / __getstate__ / __setstate__ / __setattr__ /
-paramDefs, Parameter.setter (the real closure that performs an assignment) / __set__ / backUp / restoreBackup,
-ParameterDefinitionCollection.__iter__, Composite.backUp / restoreBackup / retainState / iterChildrenWithMaterials,
+paramDefs, Parameter.__init__ / setter (the real closure that performs an assignment) / __set__ / backUp / restoreBackup,
+ParameterDefinitionCollection.__init__ / add / lock / __iter__, Composite.backUp / restoreBackup / retainState / iterChildrenWithMaterials,
 StateRetainer.__init__ / __enter__ / __exit__ / _enterExitHelper, Material.backUp / restoreBackup.
 
 The collection class `PC3` is a harness subclass of the real ParameterCollection with three parameters
@@ -43,12 +43,16 @@ def mk_class(f0, f1, f2):
     """what ParameterCollection.applyParameters establishes for a class with three definitions;
     f0..f2: the (arbitrary) `assigned` masks of the three definitions"""
     flags = [f0, f1, f2]
+    pdc = PDC()  # REAL constructors from here: Parameter.__init__ (builds the real getter / setter closures), PDC.add, lock
     defs = []
     for k in range(3):
-        pd = new(Parameter, name=NAMES[k], fieldName="_p_" + NAMES[k], collectionType=PC3, default=None, assigned=flags[k], _backup=None)
-        pd.setter(NoDefault)  # the REAL method: builds the real assignment closure
+        pd = Parameter(NAMES[k], "", "a parameter of the stand-in class", None, True, None, NoDefault, set())
+        pd.collectionType = PC3
+        pd.assigned = flags[k]
+        pdc.add(pd)
         defs.append(pd)
-    PC3.pDefs = new(PDC, _paramDefs=defs, _paramDefDict={}, _representedTypes={PC3}, _locked=True)
+    pdc.lock()
+    PC3.pDefs = pdc
     PC3._allFields = sorted(["_backup", "_hist", "assigned"] + [pd.fieldName for pd in defs])
     PC3._slots = set(PC3._allFields) | set(NAMES) | {"readOnly"}
     return defs
